@@ -307,7 +307,7 @@ Lemma finish_one ig nm m st : R ig nm m st ->
   | inl m' => s_pend st = None /\ finished m' st
   end.
 Proof.
-  intros [_ [_ [_ H]]]. destruct (finish_last m) as [m'|fl]; [|exact H]. destruct H as [A [B [C [D _]]]]. split; [exact A|]. split; auto.
+  intros [_ [_ [_ H]]]. destruct (finish_last m) as [m'|fl]; [|destruct H as [d [X [Y _]]]; exists d; auto]. destruct H as [A [B [C [D _]]]]. split; [exact A|]. split; auto.
 Qed.
 
 Lemma finish_kids_sim : forall kids stl,
@@ -442,7 +442,7 @@ Qed.
 Lemma parsew_exps_inv : forall ops es cs, parsew_exps ops = Some (es, cs) -> ops = map expw_op es ++ map callw_op cs ++ [(0, OCheck)].
 Proof.
   induction ops as [|[s o] r IH]; intros es cs H; [discriminate|].
-  destruct o as [n f ps outs obj ret ign| | | | | | | |];
+  destruct o as [n f ps outs obj ret ign| | | | | | | | |];
     try (match type of H with parsew_exps (?o :: r) = _ =>
            change (match parsew_calls (o :: r) with Some cs0 => Some ([], cs0) | None => None end = Some (es, cs)) in H end;
          destruct (parsew_calls _) as [l|] eqn:E in H; [|discriminate]; inversion H; subst; cbn [map app]; apply (parsew_calls_inv _ _ E)).
@@ -454,7 +454,7 @@ Qed.
 Lemma parsew_inv : forall ops k, parsew ops = Some k -> ops = canonw_ops k.
 Proof.
   unfold parsew, canonw_ops. induction ops as [|[s o] r IH]; intros k H; [discriminate|].
-  destruct o as [n f ps outs obj ret ign| | | | | | | |];
+  destruct o as [n f ps outs obj ret ign| | | | | | | | |];
     try (match type of H with parsew_cfg (?o :: r) = _ =>
            change (match parsew_exps (o :: r) with Some (es, cs) => Some {| kw_cfg := []; kw_exps := es; kw_calls := cs |} | None => None end = Some k) in H end;
          destruct (parsew_exps _) as [[es cs]|] eqn:E in H; [|discriminate]; inversion H; subst; cbn [map app kw_cfg kw_exps kw_calls];
